@@ -198,16 +198,27 @@ func refISortedStrings(in []string) []string {
 // refIFilesManifestText is the published inner pre-image: one line "shake256:<hex of SHAKE256(content)>  <path>\n"
 // per module file, in increasing path order.
 func refIFilesManifestText(objs []viObj) string {
+	return refIManifestText(objs, nil)
+}
+
+// refIManifestText: the manifest of the module files of objs plus the extra (always included) objects.
+func refIManifestText(objs []viObj, extra []viObj) string {
 	docPath := refIDocPath(objs)
 	var paths []string
+	var all []viObj
 	for _, o := range objs {
 		if refIIsModuleFile(o.path, docPath) {
 			paths = append(paths, o.path)
+			all = append(all, o)
 		}
+	}
+	for _, o := range extra {
+		paths = append(paths, o.path)
+		all = append(all, o)
 	}
 	text := ""
 	for _, p := range refISortedStrings(paths) {
-		for _, o := range objs {
+		for _, o := range all {
 			if o.path == p {
 				d, err := bufcas.NewDigestForContent(bytes.NewReader(o.data))
 				verifAssume(err == nil)
@@ -301,6 +312,35 @@ func VerifLemma_C08C_B5Construction() {
 	got2, err := getB5DigestForBucketAndDepDigests(ctx, filtered, deps)
 	verifAssert(err == nil, "b5 digest of the pre-filtered bucket is computed")
 	verifAssert(DigestEqual(got, got2), "pre-filtering the bucket with the module-file matcher does not change the digest")
+}
+
+// VerifLemma_C08C_B4Construction: getB4Digest = SHAKE256 over the path-sorted manifest of exactly the module files
+// plus the v1 buf.yaml / buf.lock object data when present; independent of the walk order.
+func VerifLemma_C08C_B4Construction() {
+	n := verifNondetChoice(verifParam("FILES") + 1)
+	objs := viNondetObjs(n)
+	viAllValid(objs)
+	// buf.yaml / buf.lock are never module files, so they cannot collide with a manifest path of the bucket
+	var yamlData, lockData ObjectData
+	var extra []viObj
+	if verifNondetBool() {
+		data := verifNondetBytes(verifParam("DATA"))
+		yamlData = viObjectData{name: "buf.yaml", data: data}
+		extra = append(extra, viObj{path: "buf.yaml", data: data})
+	}
+	if verifNondetBool() {
+		data := verifNondetBytes(verifParam("DATA"))
+		lockData = viObjectData{name: "buf.lock", data: data}
+		extra = append(extra, viObj{path: "buf.lock", data: data})
+	}
+	bucket := &viBucket{objs: objs, order: viPerm(n)}
+	got, err := getB4Digest(context.Background(), bucket, yamlData, lockData)
+	verifAssert(err == nil, "b4 digest of a bucket of valid paths is computed")
+	verifCover("b4 digest computed")
+	verifAssert(got.Type() == DigestTypeB4, "digest type is b4")
+	want, err := bufcas.NewDigestForContent(strings.NewReader(refIManifestText(objs, extra)))
+	verifAssume(err == nil)
+	verifAssert(bytes.Equal(got.Value(), want.Value()), "b4 digest = SHAKE256(path-sorted manifest of exactly the module files plus buf.yaml and buf.lock)")
 }
 
 // VerifLemma_C08D_Sensitivity: differential form. Two buckets / dependency lists are digested with the real
